@@ -24,14 +24,16 @@ package store
 // Store invariant: (1) a readable record named by the entry of k carries key k;
 // (2) distinct entries name distinct locations; (3) no entry names a freed location;
 // (4) every readable record carries a well-formed key; (5) entries name locations the
-// primary has handed out; (6) freed and readable locations have been handed out.
+// primary has handed out; (6) freed and readable locations have been handed out;
+// (7) the size recorded in a location is the length of key plus value.
 //@ define SI1(s) = forall k Bytes :: Ein(s)[k] && Rin(s)[Eblk(s)[k]] ==> ikey(Rkey(s)[Eblk(s)[k]]) == k
 //@ define SI2(s) = forall k1 Bytes, k2 Bytes :: Ein(s)[k1] && Ein(s)[k2] && k1 != k2 ==> Eblk(s)[k1] != Eblk(s)[k2]
 //@ define SI3(s) = forall k Bytes :: Ein(s)[k] ==> FL(s)[Eblk(s)[k]] == 0
 //@ define SI4(s) = forall b int :: Rin(s)[b] ==> wfkey(Rkey(s)[b])
 //@ define SI5(s) = forall k Bytes :: Ein(s)[k] ==> Rused(s)[Eblk(s)[k]]
 //@ define SI6(s) = forall b int :: FL(s)[b] != 0 || Rin(s)[b] ==> Rused(s)[b]
-//@ define SI(s) = SI1(s) && SI2(s) && SI3(s) && SI4(s) && SI5(s) && SI6(s)
+//@ define SI7(s) = forall b int :: Rin(s)[b] ==> pair.snd(b) == len(Rkey(s)[b]) + len(Rval(s)[b])
+//@ define SI(s) = SI1(s) && SI2(s) && SI3(s) && SI4(s) && SI5(s) && SI6(s) && SI7(s)
 //@ define sameview(s) = forall k Bytes :: has(s, k) == old(has(s, k)) && (has(s, k) ==> val(s, k) == old(val(s, k)))
 
 //@ func (s *Store) getPrimaryKeyData(blk types.Block, indexKey []byte) (k []byte, v []byte, err error)  property C01
@@ -54,13 +56,14 @@ package store
 //@   ensures @inv SI(s)
 
 //@ func (s *Store) flushTick()
-//@   modifies s.flushNotice
+//@   modifies s.flushNotice, chan(s.flushNotice)
 
 //@ func (s *Store) Put(key []byte, value []byte) (err error)  property C01 C13
 //@   define IK() = ikey(bytes(key))
 //@   requires SI(s)
 //@   requires wfkey(bytes(key))
-//@   modifies s.index.$Ein, s.index.$Eblk, s.index.Primary.$Rin, s.index.Primary.$Rkey, s.index.Primary.$Rval, s.index.Primary.$Rused, s.freelist.$F, s.flushNotice
+//@   requires len(key) + len(value) < (1 << 31)
+//@   modifies s.index.$Ein, s.index.$Eblk, s.index.Primary.$Rin, s.index.Primary.$Rkey, s.index.Primary.$Rval, s.index.Primary.$Rused, s.freelist.$F, s.flushNotice, chan(s.flushNotice)
 //@   ensures @put err == nil ==> has(s, IK()) && val(s, IK()) == bytes(value)
 //@   ensures @others forall k Bytes :: k != IK() ==> has(s, k) == old(has(s, k)) && (has(s, k) ==> val(s, k) == old(val(s, k)))
 //@   ensures @err-view err != nil ==> sameview(s)
@@ -73,7 +76,7 @@ package store
 //@ func (s *Store) Remove(key []byte) (removed bool, err error)  property C01 C13
 //@   define IK() = ikey(bytes(key))
 //@   requires SI(s)
-//@   modifies s.index.$Ein, s.freelist.$F, s.flushNotice
+//@   modifies s.index.$Ein, s.freelist.$F, s.flushNotice, chan(s.flushNotice)
 //@   ensures @result err == nil ==> removed == old(has(s, IK()))
 //@   ensures @gone err == nil ==> !has(s, IK())
 //@   ensures @others forall k Bytes :: k != IK() ==> has(s, k) == old(has(s, k)) && (has(s, k) ==> val(s, k) == old(val(s, k)))
@@ -89,3 +92,4 @@ package store
 //@ func (s *Store) GetSize(key []byte) (size types.Size, found bool, err error)  property C01 C15
 //@   requires SI(s)
 //@   ensures @found err == nil ==> found == has(s, ikey(bytes(key)))
+//@   ensures @size err == nil && found && len(Rkey(s)[Eblk(s)[ikey(bytes(key))]]) == len(key) ==> size == len(val(s, ikey(bytes(key))))
